@@ -212,10 +212,13 @@ def tlc(ctx, sub, module, cfg_kwargs, env=None, workers=16, timeout=3600, deque=
     return res
 
 
-def tlc_error_excerpt(out, n=60):
+def tlc_error_excerpt(out, n=25):
     lines = [l for l in out.splitlines() if not l.startswith("Linting") and not l.startswith("Semantic processing")
              and not l.startswith("Parsing file")]
-    return "\n".join(lines[-n:])
+    for i, l in enumerate(lines):
+        if l.startswith("Error:") or "xception" in l:
+            return "\n".join(lines[i:i + n])[:3000]
+    return "\n".join(lines[-n:])[:3000]
 
 
 def model_check(ctx, name, module, consts, invariants=(), properties=(), init="Init", next_="Next", view=None,
